@@ -101,6 +101,12 @@ def _obligation(res, ob, r):
         res["unknown"] += 1
 
 
+def _shard(P, task):
+    """optional partition of the word space by first token, so that one N can be spread over several processes"""
+    k, of = task.get("shard", (0, 1))
+    return [z3.URem(P.W[0], of) == k] if of > 1 else []
+
+
 def _witness(check, text):
     return {"check": f"c06.{check}", "args": {"text": text}}
 
@@ -112,7 +118,7 @@ def _funcs(real):
 def run_task(task, kf):
     from ..cfgsat import encode as E
     real = E.Real()
-    res = _result(f"C06/{task['q']}/N={task['N']}")
+    res = _result(f"C06/{task['q']}/N={task['N']}" + ("/shard=%d.%d" % tuple(task["shard"]) if "shard" in task else ""))
     res["funcs"] = _funcs(real)
     if real.conflicts:
         res["info"]["lalr_conflicts"] = real.conflicts[:10]
@@ -132,7 +138,7 @@ def _structure(E, real, task, res, kf):
     diff = z3.Or([z3.Xor(Fg.get(k, F), Fr.get(k, F)) for k in keys]) if keys else F
     ndefs = len(P.eg.defs) + len(P.er.defs)
     res["transitions"] = ndefs
-    both = [P.base, P.eg.defs, P.er.defs, [P.eg.acc, P.er.acc]]
+    both = [P.base + _shard(P, task), P.eg.defs, P.er.defs, [P.eg.acc, P.er.acc]]
     r, m = _query(res, tier, "q1 exists w in L(G) & L(R) with facts_G(w) != facts_R(w)", N, ndefs, *both, [diff])
     res["samples"][-1]["operator_facts"] = len(keys)
     _obligation(res, "C06/structure", r)
